@@ -23,6 +23,11 @@ def find_fn(P, impl_self, name, impl_trait=None, trait_full=None):
         if trait_full is not None and trait_full not in (f.j.get("impl_trait_full") or ""):
             continue
         hits.append(f)
+    if len(hits) > 1 and trait_full is None:
+        # `impl Div for T` next to reference-operand forwarders `impl Div<&T> for T`: the by-value impl is the operator
+        byval = [f for f in hits if "<&" not in (f.j.get("impl_trait_full") or "")]
+        if len(byval) == 1:
+            return byval[0]
     return hits[0] if len(hits) == 1 else None
 
 
